@@ -51,7 +51,7 @@ def params(ck):
 def big_params(ck):
     # long-chain histories (one trace each): runs, ops, chain length.  Their inserts carry 257..1025
     # headers per call; the first operation of each is such an insert.
-    return (2, 4, 1100) if ck.quick else (6, 8, 1100)
+    return (2, 3, 1100) if ck.quick else (6, 8, 1100)
 
 
 def validate(ck, trace, meta, tag="trace"):
